@@ -10,7 +10,8 @@
 (* signature pairs (covariant return, parameter erased to Object / to a    *)
 (* bound, reversed bound, primitives equal / different, arity, void vs     *)
 (* value, arrays) x official -> intermediary renames x named mappings      *)
-(* naming the bridge in Sub, only in Base (through inheritance), nowhere;  *)
+(* naming the bridge in Sub, only in Base (through inheritance), only in    *)
+(* Top two levels up with Base absent from the named mappings, nowhere;    *)
 (* with / without an existing entry (comment, parameter) for the delegate; *)
 (* with / without the class.                                               *)
 (***************************************************************************)
@@ -45,7 +46,8 @@ Init == phase = "start" /\ main = <<>> /\ libs = <<>> /\ cal = <<>> /\ named = <
 PickJar ==
     /\ phase = "start"
     /\ \E sig \in Sigs, acc \in AccVariants, cv \in CallVariants, home \in TypeHomes :
-        /\ main' = ("Base" :> Cls(OBJECT, <<>>, <<Meth("br", sig[1], {"abstract"}, FALSE, {}), Meth("t", sig[2], {}, TRUE, {})>>))
+        /\ main' = ("Top" :> Cls(OBJECT, <<>>, <<Meth("br", sig[1], {"abstract"}, FALSE, {})>>))
+                   @@ ("Base" :> Cls("Top", <<>>, <<Meth("br", sig[1], {"abstract"}, FALSE, {}), Meth("t", sig[2], {}, TRUE, {})>>))
                    @@ ("Sub" :> Cls("Base", <<"Itf">>, <<Meth("br", sig[1], acc, cv # "nocode", CallsOf(cv, sig)),
                                                          Meth("t", sig[2], {}, TRUE, {}),
                                                          Meth("u", "()V", {"synthetic"}, TRUE, {})>>))
@@ -59,15 +61,17 @@ NSN == <<"intermediary", "named">>
 Off(s) == s   \* official names are the names used above
 PickMaps ==
     /\ phase = "jar"
-    /\ \E ren \in BOOLEAN, where \in {"sub", "base", "nowhere"}, existing \in {"none", "plain", "rich"}, hasclass \in BOOLEAN :
+    /\ \E ren \in BOOLEAN, where \in {"sub", "base", "top", "nowhere"}, existing \in {"none", "plain", "rich"}, hasclass \in BOOLEAN :
         LET iSub == IF ren THEN "isub" ELSE "Sub"
             iBase == IF ren THEN "ibase" ELSE "Base"
+            iTop == IF ren THEN "itop" ELSE "Top"
             iA == IF ren THEN "ia" ELSE "A"
             ibr == IF ren THEN "ibr" ELSE "br"
             it == IF ren THEN "it" ELSE "t"
             calM == Root(NSC, <<>>, MapOf(
                         {Class(<<"Sub", iSub>>, <<>>, MapOf({Method(<<"br", ibr>>, tag.sig[1], <<>>, <<>>), Method(<<"t", it>>, tag.sig[2], <<>>, <<>>)})),
                          Class(<<"Base", iBase>>, <<>>, MapOf({Method(<<"br", ibr>>, tag.sig[1], <<>>, <<>>), Method(<<"t", it>>, tag.sig[2], <<>>, <<>>)})),
+                         Class(<<"Top", iTop>>, <<>>, MapOf({Method(<<"br", ibr>>, tag.sig[1], <<>>, <<>>)})),
                          Class(<<"A", iA>>, <<>>, <<>>)}))
             isig1 == MapDesc(ClassTable(calM, 1, 2), tag.sig[1]).v
             isig2 == MapDesc(ClassTable(calM, 1, 2), tag.sig[2]).v
@@ -80,7 +84,9 @@ PickMaps ==
         IN /\ cal' = calM
            /\ named' = Root(NSN, <<"root">>, MapOf(
                         (IF hasclass THEN {Class(<<iSub, "n/Sub">>, <<"cd">>, subKids)} ELSE {})
-                        \cup {Class(<<iBase, "n/Base">>, <<>>, baseKids), Class(<<"Unrelated", "n/U">>, <<>>, MapOf({Method(<<it, "x">>, isig2, <<>>, <<>>)}))}))
+                        \* "top": the name comes from two levels up and the class in between has no entry in the named mappings
+                        \cup (IF where = "top" THEN {Class(<<iTop, "n/Top">>, <<>>, MapOf({brEntry("namedInTop")}))} ELSE {Class(<<iBase, "n/Base">>, <<>>, baseKids)})
+                        \cup {Class(<<"Unrelated", "n/U">>, <<>>, MapOf({Method(<<it, "x">>, isig2, <<>>, <<>>)}))}))
            /\ tag' = [tag EXCEPT !.sig = @] @@ [ren |-> ren, where |-> where, existing |-> existing, hasclass |-> hasclass]
     /\ (Tier = 0 => (tag.home \in {"main", "nowhere"} \/ tag.cv = "delegate"))
     /\ phase' = "case" /\ UNCHANGED <<main, libs>>
